@@ -90,7 +90,17 @@ def last_hook_before_stop(b):
     tail = b[-1]
     kind = tail["act"] + ("-torn" if tail.get("torn") else "")
     nstops = sum(1 for s in b if s["act"] in ("Crash", "Exit"))
-    return "%s|%s|%d" % (hooks[-1] if hooks else "-", kind, nstops)
+    # a commit that rolled over to the next file and ended at the offset it started from (equal-size blocks,
+    # one record per file): the write cursor's offset alone does not show that it moved
+    same = False
+    start = None
+    for s in b:
+        if s.get("h") == 1 and "at" in s:
+            if s["act"] == "commit:begin":
+                start = s["at"]
+            elif start is not None and s["at"]["f"] > start["f"] and s["at"]["o"] == start["o"] and start["o"] > 0:
+                same = True
+    return "%s|%s|%d%s" % (hooks[-1] if hooks else "-", kind, nstops, "|rolled-to-same-offset" if same else "")
 
 
 def absorb(chk, recs, label):
